@@ -146,6 +146,15 @@ def r14_2(run):
         ok = ns1 not in before
         run.ob("R14.2", loc(fi, cfg1.stmt[r]), fi.short, "rejection happens before the seed is stored", ok,
                "the store is not an ancestor of the raise" if ok else "seed stored, then rejected")
+    # (4b) ... and the rejection does not dismantle the graph
+    clears = {cfg1.stmt_node_containing(c) for c in calls_named(fi.node, "clear_graph")}
+    clears.discard(None)
+    for r in raises:
+        before = nx.ancestors(cfg1.g, r)
+        hit = sorted(clears & before)
+        run.ob("R14.2", loc(fi, cfg1.stmt[r]), fi.short, "a rejected seed does not clear the graph", not hit,
+               "no clear_graph() on any path to the raise" if not hit else
+               "backward(grad) with an incompatible grad destroys the graph before raising: a later, valid backward() finds nothing to propagate through")
     # (5) default seed
     cfg0 = build_cfg(run, fi, switch_assumptions(fi, track=True, extra={"self.constant": False, "grad is not None": False}))
     ns0 = cfg0.node_for(st)
